@@ -162,6 +162,10 @@ VOCAB = {
     "consts": {},
     "param_types": {"raw": WRITER, "subslice": PIECE, "args": ("list", BYTES)},
     "lazy_iters": {("StripBytes", "strip_next"): {"new": "sbi_new", "next": "sbi_next", "elt": PIECE}},
+    # `let x = loop { .. break v; .. }` and a `return` inside `loop` / `while` that carries the loop variables: neither
+    # construct occurs in the unchanged strip.rs (the output is byte-identical), rewrites of `write` use them
+    "loop_break_value": True,
+    "loop_ret_state": True,
     "transparent_places": ["as_locked_write"],
     "index": {"Piece": idx_piece},
     "fuel": {"write": ["(S (length buf))"], "write_all": ["(S (length buf))"]},
